@@ -158,6 +158,30 @@ def run(ctx):
         s["kind"] = s["kind"].replace("C14:", "parse:")
         return s
 
+    # every key of the database with the extreme values of its type, eight keys per message, parsed as CFG-VALSET (SET) and CFG-VALGET (GET)
+    import struct as _struct
+
+    def extreme(t, which):
+        kind, n = t[:1], int(t[1:4])
+        if kind == "R":
+            return _struct.pack("<f" if n == 4 else "<d", (-1.5, 2.25e10)[which])
+        if kind == "I":
+            return ((1 << (8 * n - 1)).to_bytes(n, "little"), ((1 << (8 * n - 1)) - 1).to_bytes(n, "little"))[which]  # most negative / largest
+        return (b"\xff" * n, b"\x80" + bytes(n - 1) if n > 1 else b"\x80")[which] if which == 0 else (bytes(n - 1) + b"\x80")
+
+    def gen_everykey():
+        for l in lays:
+            for which in (0, 1):
+                for k in range(0, len(db), 8):
+                    seen, body = set(), b""
+                    for e in db[k:k + 8]:
+                        if tuple(e["key"]) not in seen:  # (the database holds one alias: two names for one key ID - known finding D18)
+                            seen.add(tuple(e["key"]))
+                            body += bytes(e["key"]) + extreme(e["t"], which)
+                    P = bytes((0, 1, 0, 0)) + body
+                    yield ("c02", {"_k": "every:%d:%d:%d" % (l["m"], which, k), "prop": "C14", "lay": l, "P": P.hex()})
+
+    run_batch(ctx, "T_Walk", "T_Walk.cfg", gen_everykey(), walk.OBSERVERS, sig2, c02.negfn, chunk=4000)
     pats = ("zero", "one", "ones", "rand", "rand", "rand", "rand", "count") * (2 if not ctx.thorough else 30)
     run_batch(ctx, "T_Walk", "T_Walk.cfg", c02.cases(ctx, lays, pats, prop="C14"), walk.OBSERVERS, sig2, c02.negfn, chunk=4000)
     ctx.exhaustive = False
